@@ -531,6 +531,9 @@ fn c15_block_size_code_inverts_writer() {
         Ok((rest, back)) => assert!(back == spec && rest.len() == 0),
         Err(_) => assert!(false),
     }
+    kani::cover!(bs == 256);
+    kani::cover!(bs == 65535);
+    kani::cover!(bs == 4608 && x8 == 255);
 }
 
 /// For EVERY `SampleRateSpec`: `sample_rate_code(spec.tag())` applied to the writer's extra bits
@@ -610,3 +613,155 @@ fn c15_unary_code_one_byte() {
     kani::cover!(window == 1 && off == 0);
 }
 
+// ================================================================================================
+// C15: small components: parse(write(c)) == c, consuming exactly count_bits() bits
+// ================================================================================================
+
+fn ideal_same(a: &Ideal, b: &Ideal) {
+    assert!(a.len == b.len);
+    let mut i = 0;
+    while i < IDEAL_WORDS {
+        assert!(a.w[i] == b.w[i]);
+        i += 1;
+    }
+}
+
+fn consumed_bits(total_bytes: usize, rest: BitInput<'_>) -> usize {
+    (total_bytes - rest.0.len()) * 8 + rest.1
+}
+
+/// For EVERY constant subframe (any block size, any documented width 8..=25, any in-range value):
+/// the parser applied to the written bits (followed by arbitrary padding bits) returns the same
+/// component, consumes exactly `count_bits()` bits, and the result re-serialises to the same bits.
+//@ unit props=C15,C08 tier=quick kind=complete timeout=600 funcs="parser::constant; Constant::write; Constant::count_bits"
+#[kani::proof]
+#[kani::unwind(9)]
+fn c15_constant_roundtrip() {
+    let bits: usize = kani::any();
+    kani::assume(8 <= bits && bits <= 25);
+    let v: i32 = kani::any();
+    kani::assume(spec_fits(v as i64, bits));
+    let bs: usize = kani::any();
+    kani::assume(1 <= bs && bs <= 65535);
+    let c = component::Constant::from_parts(bs, v, bits as u8);
+    let mut s = SpecSink::new();
+    assert!(c.write(&mut s).is_ok());
+    assert!(s.id.len == c.count_bits() && s.id.len == 8 + bits);
+    let pad: u8 = kani::any(); // the bits of the next subframe / the frame padding
+    let mut id = s.id;
+    id.push_lsbs(pad as u64, 7);
+    let mut buf = [0u8; 5];
+    let mut i = 0;
+    while i < 5 {
+        buf[i] = id.byte(i);
+        i += 1;
+    }
+    let r = constant::<BitErr>(bs, bits)((&buf[..], 0));
+    match r {
+        Ok((rest, back)) => {
+            assert!(consumed_bits(5, rest) == c.count_bits());
+            assert!(back.dc_offset() == v && back.block_size() == bs);
+            assert!(back.bits_per_sample() == bits);
+            let mut s2 = SpecSink::new();
+            assert!(back.write(&mut s2).is_ok());
+            ideal_same(&s.id, &s2.id);
+        }
+        Err(_) => assert!(false),
+    }
+    kani::cover!(bits == 25 && v == -(1 << 24));
+    kani::cover!(bits == 8 && v == 127);
+}
+
+/// The same for a verbatim subframe of 2 samples.
+//@ unit props=C15,C08 tier=quick kind=bounded timeout=600 funcs="parser::verbatim; parser::raw_samples; Verbatim::write; Verbatim::count_bits" bound="block size 2; every width 8..=25, every in-range sample value"
+#[kani::proof]
+#[kani::unwind(11)]
+fn c15_verbatim_roundtrip() {
+    let bits: usize = kani::any();
+    kani::assume(8 <= bits && bits <= 25);
+    let v: [i32; 2] = kani::any();
+    kani::assume(spec_fits(v[0] as i64, bits) && spec_fits(v[1] as i64, bits));
+    let c = component::Verbatim::from_samples(&v, bits as u8);
+    let mut s = SpecSink::new();
+    assert!(c.write(&mut s).is_ok());
+    assert!(s.id.len == c.count_bits() && s.id.len == 8 + 2 * bits);
+    let mut buf = [0u8; 8];
+    let mut i = 0;
+    while i < 8 {
+        buf[i] = s.id.byte(i);
+        i += 1;
+    }
+    let r = verbatim::<BitErr>(2, bits)((&buf[..], 0));
+    match r {
+        Ok((rest, back)) => {
+            assert!(consumed_bits(8, rest) == c.count_bits());
+            assert!(back.samples().len() == 2);
+            assert!(back.samples()[0] == v[0] && back.samples()[1] == v[1]);
+            assert!(back.bits_per_sample() == bits);
+            let mut s2 = SpecSink::new();
+            assert!(back.write(&mut s2).is_ok());
+            ideal_same(&s.id, &s2.id);
+        }
+        Err(_) => assert!(false),
+    }
+    kani::cover!(bits == 25 && v[1] == -(1 << 24));
+}
+
+/// Callee contracts for `encode_to_utf8like` / `utf8like_bytesize` on the 1-byte class (values
+/// below 128): the closed-form RFC code with a CONCRETE length (bitrepr::verif::c02_utf8_len1
+/// proves the real functions equal to it on this class; symbolic lengths are intractable).
+fn contract_utf8_1byte(val: u64) -> Result<heapless::Vec<u8, 7>, crate::error::RangeError> {
+    kani::assume(val < 128);
+    let mut ret = heapless::Vec::new();
+    ret.push(val as u8).unwrap();
+    Ok(ret)
+}
+const fn contract_bytesize_1byte(_val: usize) -> usize {
+    1
+}
+
+/// Frame header: parse(write(h)) == h, all 7 written bytes consumed (CRC-8 checked), for the shape
+/// "fixed block size, 1-byte frame number, 8-bit block-size field, table sample rate".
+//@ unit props=C15 tier=quick kind=bounded timeout=900 funcs="parser::frame_header; FrameHeader::write" stubs="encode_to_utf8like -> contract_utf8_1byte; utf8like_bytesize -> contract_bytesize_1byte (both proved by bitrepr::verif::c02_utf8_len1)" bound="shape: fixed blocking, frame number < 128, BlockSizeSpec::ExtraByte(any), SampleRateSpec::R44_1kHz, 2 independent channels; sample size 8/12/16/20/24"
+#[kani::proof]
+#[kani::unwind(10)]
+#[kani::stub(std::fmt::format, stub_format)]
+#[kani::stub(crate::component::bitrepr::encode_to_utf8like, contract_utf8_1byte)]
+#[kani::stub(crate::component::bitrepr::utf8like_bytesize, contract_bytesize_1byte)]
+fn c15_frame_header_roundtrip() {
+    let x: u8 = kani::any();
+    let num: u32 = kani::any();
+    kani::assume(num < 128);
+    let bits: u8 = kani::any();
+    kani::assume(bits == 8 || bits == 12 || bits == 16 || bits == 20 || bits == 24);
+    let sss = component::SampleSizeSpec::from_bits(bits).unwrap();
+    let mut h = component::FrameHeader::from_specs(
+        component::BlockSizeSpec::ExtraByte(x),
+        component::ChannelAssignment::Independent(2),
+        sss,
+        component::SampleRateSpec::R44_1kHz,
+    );
+    h.set_frame_offset(component::FrameOffset::Frame(num));
+    let mut s = SpecSink::new();
+    assert!(h.write(&mut s).is_ok());
+    assert!(s.id.len == 56 && h.count_bits() == 56);
+    let mut buf = [0u8; 7];
+    let mut i = 0;
+    while i < 7 {
+        buf[i] = s.id.byte(i);
+        i += 1;
+    }
+    let r = frame_header::<ByteErr>(true)(&buf[..]);
+    match r {
+        Ok((rest, back)) => {
+            assert!(rest.len() == 0);
+            assert!(back.block_size_spec() == component::BlockSizeSpec::ExtraByte(x));
+            assert!(*back.sample_rate_spec() == component::SampleRateSpec::R44_1kHz);
+            assert!(*back.sample_size_spec() == sss);
+            assert!(*back.channel_assignment() == component::ChannelAssignment::Independent(2));
+            assert!(!back.is_variable_blocking() && back.frame_number() == num);
+        }
+        Err(_) => assert!(false),
+    }
+    kani::cover!(x == 255 && num == 127 && bits == 24);
+}
